@@ -1,6 +1,8 @@
 (* C15 - Rejected input fails cleanly and leaves no process-wide residue. Property theorems only. *)
+From Coq Require Import String.
 From Coq Require Import List.
 From SV Require Import Base.Base IR.State Fmt.Policy Proofs.PolicyProofs.
+From SV Require Fmt.EdifLex Fmt.EdifFile Fmt.EdifFileSpec Proofs.EdifFileWf.
 
 (* whatever the reader body does - return or raise, on any input - the active naming policy after
    the call is the one before it *)
@@ -21,9 +23,44 @@ Theorem C15_fresh_process_behaviour : forall A f (b : body A) p q,
 Proof. exact @parse_call_outcome_independent. Qed.
 Print Assumptions C15_fresh_process_behaviour.
 
-(* Runtime residue (not a theorem, see DESIGN.md): that the Python recursive-descent loops
-   terminate on every corrupted token stream and never hand back a half-built structure is
-   checked on the implementation only, by the corruption stream of harness/policy_check.py
-   under a per-input timeout with a well-formedness check of everything returned. *)
+(* EDIF reader, "a damaged file makes the reader raise, never return a half-built netlist, never
+   loop": on the whole-file model (Fmt/EdifFile.v, from characters: tokenize, read_first, elab_file;
+   tied to sdn.parse on valid and corrupted files by harness/edif_file.py in every run of C05)
+   - for EVERY text, whatever is returned is well formed: references resolve inside the result,
+     every pin on a wire is an existing bit of an existing port, no pin is on two wires, sibling
+     identifiers are distinct case-insensitively, the top instance references a declared cell;
+   - the model cannot loop: every function of it is structurally recursive on the token list /
+     the children lists (no fuel), so elab_text is total by construction.
+   What the code does NOT guarantee: an "(instance n)" without viewRef is accepted and left without
+   a reference (open finding C05-K14) - [C15_edif_bare_instance_accepted]; with every instance
+   carrying its viewRef the result is fully well formed - [C15_edif_wf_file]. *)
+Theorem C15_edif_wf_or_error : forall (text : str) (n : EdifFile.nvfile), EdifFile.elab_text text = EdifFile.Ok n -> EdifFileSpec.wf_core n.
+Proof. exact EdifFileWf.elab_text_wf_core. Qed.
+Print Assumptions C15_edif_wf_or_error.
+
+Theorem C15_edif_wf_or_error_tokens : forall (toks : list str) (n : EdifFile.nvfile), EdifFile.elab_tokens toks = EdifFile.Ok n -> EdifFileSpec.wf_core n.
+Proof. exact EdifFileWf.elab_tokens_wf_core. Qed.
+Print Assumptions C15_edif_wf_or_error_tokens.
+
+Theorem C15_edif_wf_file : forall (d : EdifLex.sexp) (n : EdifFile.nvfile),
+  EdifFile.elab_file d = EdifFile.Ok n -> EdifFileSpec.all_referencedb n = true -> EdifFileSpec.wf_file n.
+Proof. exact EdifFileWf.elab_file_wf. Qed.
+Print Assumptions C15_edif_wf_file.
+
+Definition C15_bare_instance_text : str := s2l
+  "(edif n (edifVersion 2 0 0) (edifLevel 0) (keywordMap (keywordLevel 0))
+    (library work (edifLevel 0) (technology (numberDefinition))
+      (cell t (cellType GENERIC) (view netlist (viewType NETLIST) (interface (port x (direction INPUT)))
+        (contents (instance u1) (net x (joined (portRef x))))))))".
+
+Example C15_edif_bare_instance_accepted :
+  exists n, EdifFile.elab_text C15_bare_instance_text = EdifFile.Ok n /\ EdifFileSpec.all_referencedb n = false.
+Proof. eexists. split; vm_compute; reflexivity. Qed.
+
+(* Runtime residue (not a theorem, see DESIGN.md): that the PYTHON recursive-descent loops
+   terminate on every corrupted token stream is checked on the implementation only, by the
+   corruption streams of harness/policy_check.py and harness/edif_file.py under a per-input
+   timeout; Verilog and EBLIF readers: well-formedness of everything returned is checked on the
+   implementation only. *)
 Definition C15_full : Prop := forall A f (b : body A) p,
   (f = FEblif -> policy_neutral b) -> fst (parse_call f b p) = p.
